@@ -79,7 +79,13 @@ def w_cross(ctx, rng, i):
         lmc.append(lc)
         s.landmarks["g%d" % g] = gen.shape(rng, lc, d=d, n=n_lm if equal_sizes else int(rng.integers(3, 8)),
                                            scale=0.55 * tx.BOX, centred=True)
-    if nlm and rng.random() < 0.3:
+    if nlm == 1 and rng.random() < 0.3:
+        # the only group filed under a key that is falsy in Python (group number 0, the empty name): a group like any other
+        only_ = s.landmarks["g0"]
+        del s.landmarks["g0"]
+        s.landmarks[[0, "", False][rng.integers(0, 3)]] = only_
+        ctx.bump("single_group_under_a_falsy_key")
+    elif nlm and rng.random() < 0.3:
         # a landmark group that carries landmarks of its own
         g0 = s.landmarks["g0"]
         g0.landmarks["inner"] = gen.shape(rng, gen.SHAPE_CLASSES[rng.integers(0, 8)], d=d, n=int(rng.integers(3, 6)), scale=0.55 * tx.BOX, centred=True)
